@@ -62,6 +62,10 @@ def run(ctx):
             if h:
                 scripts.append({"run": len(scripts), "src": "design-counterexample:" + inv, "h": h})
     ctx.set("design_level_counterexamples", design)
+    if ctx.thorough:
+        # the composition of the configuration plane with the path loop (spec/MTX.tla): cross-module
+        # invariants (a closed incarnation's publisher is closed, no hooks or stream on a dead name)
+        vf.mc(ctx, "MTX", "MTX.cfg", workers=vf.NCPU, timeout=1500)
 
     # directed behaviours: two live paths of one regex configuration move together to another one and
     # disagree on whether they can be kept (same capture group for "cam", a different one for "cam1");
